@@ -101,9 +101,12 @@
 (declare-fun T.height (RT) (_ BitVec 64))
 (declare-fun X.reflect.Type.Elem.r0 (RT) RT)
 (declare-fun X.reflect.Type.Key.r0 (RT) RT)
+(define-fun R.tElem ((t RT)) RT (X.reflect.Type.Elem.r0 t))
 ;@when T.height
 (assert (forall ((t RT)) (! (and (bvsge (T.height t) #x0000000000000000) (bvsle (T.height t) #x0000000000100000)) :pattern ((T.height t)))))
-(assert (forall ((t RT)) (! (bvslt (T.height (X.reflect.Type.Elem.r0 t)) (T.height t)) :pattern ((X.reflect.Type.Elem.r0 t)))))
-(assert (forall ((t RT)) (! (bvslt (T.height (X.reflect.Type.Key.r0 t)) (T.height t)) :pattern ((X.reflect.Type.Key.r0 t)))))
+; an UNNAMED composite type is strictly higher than its element and key types; a named type may contain itself
+; (type Nest []Nest, type Tree map[string]Tree, type P *P), so nothing is assumed about it
+(assert (forall ((t RT)) (! (=> (= (X.reflect.Type.Name.r0 t) str.empty) (bvslt (T.height (X.reflect.Type.Elem.r0 t)) (T.height t))) :pattern ((X.reflect.Type.Elem.r0 t)))))
+(assert (forall ((t RT)) (! (=> (= (X.reflect.Type.Name.r0 t) str.empty) (bvslt (T.height (X.reflect.Type.Key.r0 t)) (T.height t))) :pattern ((X.reflect.Type.Key.r0 t)))))
 (assert (forall ((t RT)) (! (bvsle (T.height (R.unpackPtrType t)) (T.height t)) :pattern ((R.unpackPtrType t)))))
 ;@end
